@@ -39,6 +39,10 @@ PYTENET_PATH = os.path.abspath(os.environ.get('PYTENET_PATH', '/repo'))
 
 class Violation(Exception):
     """The oracle decided that the property is violated on this case."""
+    def __init__(self, msg, case=None):
+        super().__init__(msg)
+        # optional narrower case descriptor (same part) that reproduces the failure on its own
+        self.case_override = case
 
 
 class HarnessError(Exception):
@@ -91,7 +95,7 @@ def case_hash(case):
 
 class Rec:
     """Per-case recorder handed to check(): labels, non-triviality, exclusions."""
-    __slots__ = ('labels', 'nontrivial', 'excluded_known', 'unjudged', 'metrics')
+    __slots__ = ('labels', 'nontrivial', 'excluded_known', 'unjudged', 'metrics', 'bulk_evals', 'bulk_nontrivial', 'bulk_labels')
 
     def __init__(self):
         self.labels = []
@@ -99,6 +103,19 @@ class Rec:
         self.excluded_known = 0
         self.unjudged = []
         self.metrics = {}
+        self.bulk_evals = 0
+        self.bulk_nontrivial = 0
+        self.bulk_labels = {}
+
+    def bulk(self, evaluations, nontrivial, labels=None):
+        """
+        The case is a chunk of an exhaustive enumeration: `evaluations` distinct inputs were judged,
+        `nontrivial` of them non-trivial (distinct by construction, so no hashing is needed).
+        """
+        self.bulk_evals += int(evaluations)
+        self.bulk_nontrivial += int(nontrivial)
+        for k, v in (labels or {}).items():
+            self.bulk_labels[k] = self.bulk_labels.get(k, 0) + int(v)
 
     def label(self, *names):
         for n in names:
@@ -214,8 +231,17 @@ class Stats:
         self.metrics = {}
         self.failure = None
         self.harness_error = None
+        self.bulk_nontrivial = 0
 
     def add(self, case, rec):
+        if rec.bulk_evals:
+            self.evaluations += rec.bulk_evals
+            self.bulk_nontrivial += rec.bulk_nontrivial
+            for k, v in rec.bulk_labels.items():
+                self.labels[k] = self.labels.get(k, 0) + v
+            if len(self.samples) < 2:
+                self.samples.append(json.loads(canon(case)))
+            return
         self.evaluations += 1
         for l in rec.labels:
             self.labels[l] = self.labels.get(l, 0) + 1
@@ -239,7 +265,8 @@ class Stats:
         return {'evaluations': self.evaluations, 'nontrivial': sorted(self.nontrivial),
                 'labels': self.labels, 'samples': self.samples,
                 'excluded_known': self.excluded_known, 'unjudged': self.unjudged,
-                'metrics': self.metrics, 'failure': self.failure, 'harness_error': self.harness_error}
+                'metrics': self.metrics, 'failure': self.failure, 'harness_error': self.harness_error,
+                'bulk_nontrivial': self.bulk_nontrivial}
 
 
 def _load(prop_id):
@@ -273,7 +300,7 @@ def _work(args):
             except BaseException as e:  # noqa
                 if isinstance(e, (KeyboardInterrupt, SystemExit)):
                     raise
-                last_fail['case'] = json.loads(canon(case))
+                last_fail['case'] = json.loads(canon(getattr(e, 'case_override', None) or case))
                 last_fail['exc'] = e
                 last_fail['tb'] = e.__traceback__
                 raise
@@ -458,6 +485,7 @@ def main(argv):
     results.sort(key=lambda r: (r['part'], r['shard']))
 
     per_part = {}
+    bulk_total = 0
     nontrivial = set(regress_stats.nontrivial)
     evaluations = regress_stats.evaluations
     samples = []
@@ -469,8 +497,10 @@ def main(argv):
         labels = {}
         metrics = {}
         ev = 0
+        bulk_nt = 0
         for r in rs:
             ev += r['evaluations']
+            bulk_nt += r['bulk_nontrivial']
             nt.update(r['nontrivial'])
             for k, v in r['labels'].items():
                 labels[k] = labels.get(k, 0) + v
@@ -490,8 +520,9 @@ def main(argv):
                     samples.append({'part': p.name, 'case': s})
         evaluations += ev
         nontrivial.update((p.name, h) for h in nt)
+        bulk_total += bulk_nt
         per_part[p.name] = {'kind': 'enumeration' if p.kind == 'enum' else 'hypothesis',
-                            'evaluations': ev, 'distinct_nontrivial': len(nt),
+                            'evaluations': ev, 'distinct_nontrivial': len(nt) + bulk_nt,
                             'classes': dict(sorted(labels.items())),
                             'worst_observed': metrics,
                             'exhaustive': bool(p.exhaustive and p.kind == 'enum'),
@@ -517,7 +548,7 @@ def main(argv):
         'assumptions': list(getattr(mod, 'ASSUME', [])),
         'coverage': {
             'evaluations': evaluations,
-            'distinct_nontrivial': len(nontrivial),
+            'distinct_nontrivial': len(nontrivial) + bulk_total,
             'rule': mod.RULE,
             'samples': samples,
             'parts': per_part,
@@ -538,7 +569,7 @@ def main(argv):
         print(f'[{prop_id}/{name}] {pp["kind"]}: {pp["evaluations"]} cases, '
               f'{pp["distinct_nontrivial"]} distinct non-trivial, {pp["wall_s"]} s')
     print(f'[{prop_id}] tier={tier} seed={seed} evaluations={evaluations} '
-          f'distinct_nontrivial={len(nontrivial)} excluded_known={excluded_known} wall={wall:.1f}s')
+          f'distinct_nontrivial={len(nontrivial) + bulk_total} excluded_known={excluded_known} wall={wall:.1f}s')
 
     if harness_errors:
         for e in harness_errors:
